@@ -432,11 +432,13 @@ func ruleAntispamGating(c *Ctx, r *Rule) {
 			switch x := v.(type) {
 			case *ssa.Parameter:
 			case *ssa.Convert:
-				if _, isP := x.X.(*ssa.Parameter); !isP {
+				if _, isP := stripConv(x.X).(*ssa.Parameter); !isP {
 					okLeaves = false
 				}
 			default:
-				okLeaves = false
+				if _, isP := stripConv(v).(*ssa.Parameter); !isP {
+					okLeaves = false
+				}
 			}
 		}
 		walk(subj)
@@ -533,10 +535,19 @@ func ruleBanCapAgreement(c *Ctx, r *Rule) {
 		if c.pkgOf(fn) != "pipeline/antispam" {
 			continue
 		}
-		// the per-source threshold of this function
+		// the per-source threshold of this function (and of the function literals it belongs with)
 		var perSource []ssa.Value
-		for _, b := range fn.Blocks {
-			for _, in := range b.Instrs {
+		top := fn
+		for top.Parent() != nil {
+			top = top.Parent()
+		}
+		var family []ssa.Instruction
+		for _, f := range append([]*ssa.Function{top}, allAnon(top)...) {
+			family = append(family, allInstrs(f)...)
+		}
+		for _, b := range []int{0} {
+			_ = b
+			for _, in := range family {
 				switch x := in.(type) {
 				case *ssa.Lookup:
 					if isLoadOfField(x.X, antispamPkg, "Antispammer", "sourcesThresholds") {
@@ -566,8 +577,14 @@ func ruleBanCapAgreement(c *Ctx, r *Rule) {
 				n++
 				ok2 := false
 				for _, ps := range perSource {
-					if stripConv(other) == ps || sameValue(stripConv(other), ps) {
+					if stripConv(other) == ps || stripConv(other) == stripConv(ps) || sameValue(stripConv(other), ps) {
 						ok2 = true
+					}
+					// two reads of the same variable cell (a local captured by a function literal)
+					if u1, isU1 := stripConv(other).(*ssa.UnOp); isU1 && u1.Op == token.MUL {
+						if u2, isU2 := stripConv(ps).(*ssa.UnOp); isU2 && u2.Op == token.MUL && cellAddr(u1.X) == cellAddr(u2.X) {
+							ok2 = true
+						}
 					}
 					if e, isE := stripConv(other).(*ssa.Extract); isE && e.Tuple == ps {
 						ok2 = true
